@@ -30,16 +30,21 @@ type params struct {
 	senders int
 	full    bool // enumerate the scripts of two-checkpoint runs too (otherwise one fixed script set)
 	focused bool // one fixed script set for every checkpoint count (deeper schedule bound)
+	ckpts   int  // when set: exactly this many consecutive checkpoints (fixed scripts)
 }
 
 func Run(k *report.Check) {
-	k.Rule = "one real Operator (event batch size 1 or 2), R sender threads (source runners) that each play a script through HandleEvent sequentially; scripts enumerated: 0-2 keyed events before each barrier (keys collide across senders), 0-1 after, optional pre-barrier watermark, one timer-setting event, one or two consecutive checkpoints; every schedule of the sender threads, the operator's event loop and the (slow) handler within the delay bound. For every OperatorCheckpointComplete(N): the events applied so far are exactly the events every sender delivered before its barrier N, no timer fired that only post-barrier watermarks justify, the DKV checkpoint reported for N (opened afterwards with a fresh database) holds exactly that state, no deadlock. non-trivial = distinct (scripts, schedule cost) executions in which a sender had passed its barrier while another sender's pre-barrier event was still to be applied"
+	k.Rule = "one real Operator (event batch size 1 or 2), R sender threads (source runners) that each play a script through HandleEvent sequentially; scripts enumerated: 0-2 keyed events before each barrier (keys collide across senders), 0-1 after, optional pre-barrier watermark, one timer-setting event, one or two consecutive checkpoints (separate parts: three, thorough also four, with fixed scripts); every schedule of the sender threads, the operator's event loop and the (slow) handler within the delay bound. For every OperatorCheckpointComplete(N): the events applied so far are exactly the events every sender delivered before its barrier N, no timer fired that only post-barrier watermarks justify, the DKV checkpoint reported for N (opened afterwards with a fresh database) holds exactly that state, no deadlock. non-trivial = distinct (scripts, schedule cost) executions in which a sender had passed its barrier while another sender's pre-barrier event was still to be applied"
 	k.Assumptions = []string{"scheduling points at synchronisation operations (sequentially consistent)", "large memtable: the database's background work is C07/C08's subject"}
 	k.Budget(120, 1200)
 	bound := k.Pick(1, 2)
 	k.ExploreSched(fmt.Sprintf("align/all-scripts,senders=2,delays<=%d", bound), mc.Config{Bound: bound}, params{senders: 2, full: k.Thorough()}, body)
 	k.ExploreSched(fmt.Sprintf("align/focused-scripts,senders=2,delays<=%d", bound+1), mc.Config{Bound: bound + 1}, params{senders: 2, focused: true}, body)
+	// three and four checkpoints in a row on one deployment: the alignment bookkeeping is re-armed
+	// after every checkpoint, and which sender's barrier arrives first may change from one to the next
+	k.ExploreSched(fmt.Sprintf("align/three-checkpoints,senders=2,delays<=%d", bound), mc.Config{Bound: bound, Deadline: k.Within(0.5)}, params{senders: 2, focused: true, ckpts: 3}, body)
 	if k.Thorough() {
+		k.ExploreSched("align/four-checkpoints,senders=2,delays<=2", mc.Config{Bound: 2, Deadline: k.Within(0.4)}, params{senders: 2, focused: true, ckpts: 4}, body)
 		k.ExploreSched("align/focused-scripts,senders=3,delays<=2", mc.Config{Bound: 2}, params{senders: 3, focused: true}, body)
 	}
 }
@@ -65,7 +70,10 @@ func (shared) ExclusivelyOwnsTable(string, []byte, []byte) (bool, error) {
 func body(c *mc.Ctx) {
 	p := c.Param.(params)
 	batch := 1 + c.Choose(2)
-	nCkpt := 1 + c.Choose(2)
+	nCkpt := p.ckpts
+	if nCkpt == 0 {
+		nCkpt = 1 + c.Choose(2)
+	}
 	scripts := make([][]step, p.senders)
 	preSet := make([]map[string]bool, nCkpt+1) // events delivered before barrier n (1-based), cumulative
 	for n := range preSet {
@@ -74,6 +82,22 @@ func body(c *mc.Ctx) {
 	preWM := make([][]int64, nCkpt+1) // per checkpoint: last pre-barrier watermark per sender
 	for n := range preWM {
 		preWM[n] = make([]int64, p.senders)
+	}
+	// with a fixed number of checkpoints the scripts decide who is ahead: for every checkpoint one
+	// sender (enumerated) has two events and a watermark in front of its barrier, the others none,
+	// so that under the default schedule too the first barrier comes from a different sender
+	lag := 0
+	if p.ckpts > 0 {
+		for n := 0; n < nCkpt; n++ {
+			lag = lag*p.senders + c.Choose(p.senders)
+		}
+	}
+	laggard := func(n int) int { // n is 1-based
+		v := lag
+		for i := nCkpt; i > n; i-- {
+			v /= p.senders
+		}
+		return v % p.senders
 	}
 	var desc []string
 	for r := 0; r < p.senders; r++ {
@@ -95,10 +119,17 @@ func body(c *mc.Ctx) {
 			if !fixed {
 				cnt = c.Choose(3)
 			}
+			withWM := fixed
+			if p.ckpts > 0 {
+				cnt, withWM = 0, false
+				if laggard(n) == r {
+					cnt, withWM = 2, true
+				}
+			}
 			for i := 0; i < cnt; i++ {
 				add()
 			}
-			if fixed || c.Choose(2) == 1 {
+			if withWM || (!fixed && c.Choose(2) == 1) {
 				lastWM = int64(3 * n)
 				sc = append(sc, step{kind: 'w', wm: lastWM})
 			}
